@@ -42,9 +42,10 @@ const (
 	c06KPostExit
 	c06KStopIssue  // harness: external stop action about to be called (A = target)
 	c06KStopReturn // harness: the call returned
+	c06KRearm      // (*PID).resetBehavior entered: restartSubtree re-arms Receive before it re-runs PreStart
 )
 
-var c06KindName = []string{"PreStart-enter", "PreStart-exit", "Receive-enter", "Receive-exit", "PostStop-enter", "PostStop-exit", "stop-issued", "stop-returned"}
+var c06KindName = []string{"PreStart-enter", "PreStart-exit", "Receive-enter", "Receive-exit", "PostStop-enter", "PostStop-exit", "stop-issued", "stop-returned", "behaviour-rearmed"}
 
 // in-handler actions
 const (
@@ -70,6 +71,7 @@ var c06StopName = []string{"poison-pill", "kill", "pid-shutdown", "pid-stop", "r
 const (
 	c06FpOffTurn   = "offturn-stop-overlaps-receive:" // + path
 	c06FpPreStart  = "prestart-overlaps-receive:"     // + spawn|restart
+	c06FpRearm     = "restart-delivers-backlog-before-prestart"
 	c06Cap         = 20 * time.Second
 	c06PkgPrefix   = "github.com/tochemey/goakt/v4/actor."
 	c06MaxLogLines = 400
@@ -405,6 +407,12 @@ var (
 )
 
 func c06Start(t *testing.T) {
+	c06RearmHook = func(pid *PID) {
+		if a, ok := pid.actor.(*c06Actor); ok {
+			a.h.add(c06Ev{G: c06Gid(), A: a.idx, K: c06KRearm})
+		}
+	}
+	t.Cleanup(func() { c06RearmHook = nil })
 	for i, b := range c06Budgets {
 		opts := []Option{WithLogger(log.DiscardLogger)}
 		if b > 0 {
@@ -616,6 +624,16 @@ func c06Judge(x *vfkit.X, c c06Case, evs []c06Ev) {
 		}
 		var calls []*stopCall
 		var mine []c06Ev
+		var rearms []int64
+		// rearmedIn reports whether restartSubtree re-armed the behaviour stack inside (lo, hi)
+		rearmedIn := func(lo, hi int64) bool {
+			for _, ts := range rearms {
+				if lo < ts && ts < hi {
+					return true
+				}
+			}
+			return false
+		}
 		for _, e := range evs {
 			if e.A != ai {
 				continue
@@ -640,6 +658,8 @@ func c06Judge(x *vfkit.X, c c06Case, evs []c06Ev) {
 					iv.exit = e.TS
 					delete(open, key)
 				}
+			case c06KRearm:
+				rearms = append(rearms, e.TS)
 			case c06KStopIssue:
 				calls = append(calls, &stopCall{issue: e.TS, ret: c06Open, g: e.G, kind: e.Path})
 				if e.Q > 0 {
@@ -671,7 +691,7 @@ func c06Judge(x *vfkit.X, c c06Case, evs []c06Ev) {
 		// (a) PreStart completes before any Receive of its incarnation; no hook or handler
 		//     before the first PreStart
 		for _, e := range mine {
-			if e.TS < pre[0].enter && e.K != c06KStopIssue && e.K != c06KStopReturn {
+			if e.TS < pre[0].enter && e.K != c06KStopIssue && e.K != c06KStopReturn && e.K != c06KRearm {
 				fail("event-before-prestart", "%s recorded before the first PreStart started", c06KindName[e.K])
 			}
 		}
@@ -686,10 +706,15 @@ func c06Judge(x *vfkit.X, c c06Case, evs []c06Ev) {
 						fail("prestart-receive-interleaved-one-goroutine", "PreStart #%d [%d,%d] and Receive [%d,%d] interleave on goroutine %d", k+1, p.enter, p.exit, r.enter, r.exit, p.g)
 					}
 					fp := c06FpPreStart + which
+					if k > 0 && rearmedIn(pre[k-1].exit, r.enter) {
+						// the Receive started after this restart had re-armed the behaviour stack
+						fp = c06FpRearm
+					}
+					nontrivial = true
 					if !x.Known(fp) {
 						fail(fp, "PreStart #%d [%d,%d] on goroutine %d overlaps Receive(msg %d) [%d,%s] on goroutine %d: PreStart had not completed when a Receive was running", k+1, p.enter, p.exit, p.g, r.msg, r.enter, c06TS(r.exit), r.g)
 					}
-					x.Class("known_prestart_overlaps_receive_" + which)
+					x.Class("known_" + fp)
 					knownFP = fp
 				}
 			}
@@ -748,6 +773,17 @@ func c06Judge(x *vfkit.X, c c06Case, evs []c06Ev) {
 				kind := "a Receive was still running on another goroutine when PostStop started"
 				if r.enter > P.enter {
 					kind = "a Receive started after PostStop had started"
+				}
+				if r.enter > P.enter && rearmedIn(P.enter, r.enter) {
+					// not a handler that was in flight when the stopper ran: Restart pushed
+					// Receive back (resetBehavior) before re-running PreStart and a worker
+					// delivered the old backlog to the stopped, not yet re-initialised actor
+					if !x.Known(c06FpRearm) {
+						fail(c06FpRearm, "incarnation %d: Receive(msg %d) [%d,%s] on goroutine %d started after PostStop (%s, [%d,%s]) and after Restart re-armed the behaviour stack, before PreStart #%d started", k+1, r.msg, r.enter, c06TS(r.exit), r.g, P.path, P.enter, c06TS(P.exit), k+2)
+					}
+					x.Class("known_" + c06FpRearm)
+					knownFP = c06FpRearm
+					continue
 				}
 				if c06OnTurnPath(P.path) {
 					fail("onturn-stop-overlaps-receive:"+P.path, "incarnation %d: %s: PostStop(%s) [%d,%s] goroutine %d, Receive(msg %d) [%d,%s] goroutine %d", k+1, kind, P.path, P.enter, c06TS(P.exit), P.g, r.msg, r.enter, c06TS(r.exit), r.g)
